@@ -177,6 +177,7 @@ func (d *drvCtlT) op(name string) bool {
 func (d *drvCtlT) done(name string) {
 	d.mu.Lock()
 	defer d.mu.Unlock()
+	d.ops = append(d.ops, name+".done")
 	d.count++
 	if d.kill != 0 && d.count == d.kill {
 		killSelf()
